@@ -248,8 +248,8 @@ def _binding_selftest(specdir, scratch, traces, reports):
 
 
 KNOWN_FINDING_HISTORIES = {
-    # KF-HJ1: C is beaten at the first jump-off height, A and B then fail at a height not above their best:
-    # all three are re-instated; C goes on to "win"
+    # former KF-HJ1 (repaired by ae36192, kept as a regression scenario): C is beaten at the first jump-off height, A and
+    # B then fail at a height not above their best: all three used to be re-instated and C went on to "win"
     'C02': ['+A +B +C |100 Ao Bo Co |105 Axxx Bxxx Cxxx |100 Ao Bo Cx |105 Ax Bx |110 Co Ax Bx'],
     'C03': ['+A +B +C |100 Ao Bo Co |105 Axxx Bxxx Cxxx |100 Ao Bo Cx |105 Ax Bx |110 Co Ax Bx'],
     # KF-HJ2: a pass in a jump-off column
